@@ -431,4 +431,162 @@ theorem encodeThresh_len (ke : KeyEnv) (ctx : Ctx) : (xs : MsList) → sizeOks k
       simp [encodeThresh, scriptSizes, MsList.length, ih, scriptSize_eq ke ctx x h.1] <;> omega
 end
 
+/-! ### `pk_cost` versus the script size -/
+
+mutual
+/-- by how much `pk_cost` over-estimates: only `multi_a`, whose `num_cost` table charges one byte
+too many when `n > 16 ≥ k` or `16 < k ≤ 127` -/
+def costSlack : Ms → Nat
+  | .multiA k ks | .sortedMultiA k ks => ExtData.numCost k ks.length - (scriptNumSize k + 1)
+  | .alt x | .swap x | .check x | .dupIf x | .verify x | .nonZero x | .zeroNotEqual x => costSlack x
+  | .andV l r | .andB l r | .orB l r | .orD l r | .orC l r | .orI l r => costSlack l + costSlack r
+  | .andOr a b c => costSlack a + costSlack b + costSlack c
+  | .thresh _ xs => costSlacks xs
+  | _ => 0
+def costSlacks : MsList → Nat
+  | .nil => 0
+  | .cons x xs => costSlack x + costSlacks xs
+end
+
+mutual
+/-- keys of the length the context prescribes; `multi` outside tapscript with `k, n ≤ 127`
+(`Threshold` caps them at 20); `multi_a` in tapscript with `n ≥ 1` and `k ≤ n`-style sizes for
+which `num_cost` is not too small; `thresh` non-empty -/
+def costOk (ke : KeyEnv) (ctx : Ctx) : Ms → Bool
+  | .pkK k => keyOk ke ctx k
+  | .multi k ks | .sortedMulti k ks =>
+    decide (ctx ≠ .tap) && decide (k ≤ 127) && decide (ks.length ≤ 127) && ks.all (keyOk ke ctx)
+  | .multiA k ks | .sortedMultiA k ks =>
+    decide (ctx = .tap) && decide (1 ≤ ks.length) && decide (scriptNumSize k + 1 ≤ ExtData.numCost k ks.length)
+  | .alt x | .swap x | .check x | .dupIf x | .verify x | .nonZero x | .zeroNotEqual x => costOk ke ctx x
+  | .andV l r | .andB l r | .orB l r | .orD l r | .orC l r | .orI l r => costOk ke ctx l && costOk ke ctx r
+  | .andOr a b c => costOk ke ctx a && costOk ke ctx b && costOk ke ctx c
+  | .thresh _ xs => decide (0 < xs.length) && costOks ke ctx xs
+  | _ => true
+def costOks (ke : KeyEnv) (ctx : Ctx) : MsList → Bool
+  | .nil => true
+  | .cons x xs => costOk ke ctx x && costOks ke ctx xs
+end
+
+theorem pkLen_eq_keySig {ke : KeyEnv} {ctx : Ctx} {k : Key} (h : keyOk ke ctx k = true) :
+    pkLen ke ctx k = (ExtData.keySig ctx (isUnc ke k)).1 := by
+  cases ctx <;> simp only [keyOk, Bool.or_eq_true, beq_iff_eq] at h <;>
+    simp only [pkLen, ExtData.keySig, Ctx.sigType, isUnc, beq_iff_eq] <;> (try split) <;> simp_all
+
+theorem multi_keys_cost {ke : KeyEnv} {ctx : Ctx} (hc : ctx ≠ .tap) : ∀ ks : List Key,
+    ks.all (keyOk ke ctx) = true →
+    ((ks.map (isUnc ke)).map (fun u => if u then 66 else 34)).sum = (ks.map (pkLen ke ctx)).sum := by
+  intro ks
+  induction ks with
+  | nil => intro _; rfl
+  | cons k ks ih =>
+    intro h
+    simp only [List.all_cons, Bool.and_eq_true] at h
+    simp only [List.map_cons, List.sum_cons, ih h.2]
+    have := pkLen_eq_keySig h.1
+    cases ctx <;> simp_all [ExtData.keySig, Ctx.sigType] <;> split <;> simp_all
+
+theorem tap_keys_len (ke : KeyEnv) (ks : List Key) : (ks.map (pkLen ke .tap)).sum = 33 * ks.length := by
+  induction ks with
+  | nil => rfl
+  | cons a as ih => simp [pkLen] at ih ⊢; omega
+
+theorem numCost_eq (k n : Nat) (hk : k ≤ 127) (hn : n ≤ 127) :
+    ExtData.numCost k n = scriptNumSize k + scriptNumSize n := by
+  simp only [ExtData.numCost, scriptNumSize]
+  by_cases h1 : k > 16 <;> by_cases h2 : n > 16 <;> simp [h1, h2] <;> (repeat' split) <;> omega
+
+mutual
+theorem pkCost_eq (ke : KeyEnv) (ctx : Ctx) : (ms : Ms) → costOk ke ctx ms = true →
+    (extOf ke ctx ms).pkCost = scriptSize ke ctx ms + costSlack ms
+  | .tru, _ | .fls, _ => rfl
+  | .pkK k, h => by
+    simp only [costOk] at h
+    have := pkLen_eq_keySig h
+    simp only [extOf, scriptSize, costSlack, this]
+    cases ctx <;> cases isUnc ke k <;> rfl
+  | .pkH _, _ | .rawPkH _, _ => by cases ctx <;> simp [extOf, ExtData.pkH, scriptSize, costSlack, ExtData.keySig, Ctx.sigType] <;> split <;> rfl
+  | .after _, _ | .older _, _ => rfl
+  | .hash kind _, _ => by cases kind <;> rfl
+  | .alt x, h => by
+    simp only [costOk] at h
+    simp only [extOf, ExtData.castAlt, scriptSize, costSlack, pkCost_eq ke ctx x h]; omega
+  | .swap x, h => by
+    simp only [costOk] at h
+    simp only [extOf, ExtData.castSwap, scriptSize, costSlack, pkCost_eq ke ctx x h]; omega
+  | .check x, h => by
+    simp only [costOk] at h
+    simp only [extOf, ExtData.castCheck, scriptSize, costSlack, pkCost_eq ke ctx x h]; omega
+  | .zeroNotEqual x, h => by
+    simp only [costOk] at h
+    simp only [extOf, ExtData.castZeroNotEqual, scriptSize, costSlack, pkCost_eq ke ctx x h]; omega
+  | .dupIf x, h => by
+    simp only [costOk] at h
+    simp only [extOf, ExtData.castDupIf, scriptSize, costSlack, pkCost_eq ke ctx x h]; omega
+  | .nonZero x, h => by
+    simp only [costOk] at h
+    simp only [extOf, ExtData.castNonZero, scriptSize, costSlack, pkCost_eq ke ctx x h]; omega
+  | .verify x, h => by
+    simp only [costOk] at h
+    simp only [extOf, ExtData.castVerify, scriptSize, costSlack, pkCost_eq ke ctx x h]; omega
+  | .andV l r, h => by
+    simp only [costOk, Bool.and_eq_true] at h
+    simp only [extOf, ExtData.andV, scriptSize, costSlack, pkCost_eq ke ctx l h.1, pkCost_eq ke ctx r h.2]; omega
+  | .andB l r, h => by
+    simp only [costOk, Bool.and_eq_true] at h
+    simp only [extOf, ExtData.andB, scriptSize, costSlack, pkCost_eq ke ctx l h.1, pkCost_eq ke ctx r h.2]; omega
+  | .orB l r, h => by
+    simp only [costOk, Bool.and_eq_true] at h
+    simp only [extOf, ExtData.orB, scriptSize, costSlack, pkCost_eq ke ctx l h.1, pkCost_eq ke ctx r h.2]; omega
+  | .orD l r, h => by
+    simp only [costOk, Bool.and_eq_true] at h
+    simp only [extOf, ExtData.orD, scriptSize, costSlack, pkCost_eq ke ctx l h.1, pkCost_eq ke ctx r h.2]; omega
+  | .orC l r, h => by
+    simp only [costOk, Bool.and_eq_true] at h
+    simp only [extOf, ExtData.orC, scriptSize, costSlack, pkCost_eq ke ctx l h.1, pkCost_eq ke ctx r h.2]; omega
+  | .orI l r, h => by
+    simp only [costOk, Bool.and_eq_true] at h
+    simp only [extOf, ExtData.orI, scriptSize, costSlack, pkCost_eq ke ctx l h.1, pkCost_eq ke ctx r h.2]; omega
+  | .andOr a b c, h => by
+    simp only [costOk, Bool.and_eq_true] at h
+    simp only [extOf, ExtData.andOr, scriptSize, costSlack, pkCost_eq ke ctx a h.1.1,
+      pkCost_eq ke ctx b h.1.2, pkCost_eq ke ctx c h.2]; omega
+  | .thresh k xs, h => by
+    simp only [costOk, Bool.and_eq_true, decide_eq_true_eq] at h
+    have hl := pkCosts_eq ke ctx xs h.2
+    have hn := extsOf_length' ke ctx xs
+    simp only [extOf, ExtData.threshold, scriptSize, costSlack, hl, hn]
+    omega
+  | .multi k ks, h => by
+    simp only [costOk, Bool.and_eq_true, decide_eq_true_eq] at h
+    obtain ⟨⟨⟨hc, hk⟩, hn⟩, hks⟩ := h
+    simp only [extOf, ExtData.multi, scriptSize, costSlack, List.length_map, numCost_eq k ks.length hk hn,
+      multi_keys_cost hc ks hks]; omega
+  | .sortedMulti k ks, h => by
+    simp only [costOk, Bool.and_eq_true, decide_eq_true_eq] at h
+    obtain ⟨⟨⟨hc, hk⟩, hn⟩, hks⟩ := h
+    simp only [extOf, ExtData.multi, scriptSize, costSlack, List.length_map, numCost_eq k ks.length hk hn,
+      multi_keys_cost hc ks hks]; omega
+  | .multiA k ks, h => by
+    simp only [costOk, Bool.and_eq_true, decide_eq_true_eq] at h
+    obtain ⟨⟨rfl, hn⟩, hc⟩ := h
+    have := tap_keys_len ke ks
+    simp only [extOf, ExtData.multiA, scriptSize, costSlack, this]; omega
+  | .sortedMultiA k ks, h => by
+    simp only [costOk, Bool.and_eq_true, decide_eq_true_eq] at h
+    obtain ⟨⟨rfl, hn⟩, hc⟩ := h
+    have := tap_keys_len ke ks
+    simp only [extOf, ExtData.multiA, scriptSize, costSlack, this]; omega
+theorem pkCosts_eq (ke : KeyEnv) (ctx : Ctx) : (xs : MsList) → costOks ke ctx xs = true →
+    ((extsOf ke ctx xs).map (·.pkCost)).sum = scriptSizes ke ctx xs + costSlacks xs
+  | .nil, _ => rfl
+  | .cons x xs, h => by
+    simp only [costOks, Bool.and_eq_true] at h
+    simp only [extsOf, List.map_cons, List.sum_cons, scriptSizes, costSlacks, pkCost_eq ke ctx x h.1,
+      pkCosts_eq ke ctx xs h.2]; omega
+theorem extsOf_length' (ke : KeyEnv) (ctx : Ctx) : (xs : MsList) → (extsOf ke ctx xs).length = xs.length
+  | .nil => rfl
+  | .cons _ xs => by simp [extsOf, MsList.length, extsOf_length' ke ctx xs]
+end
+
 end MsVerif.C09
